@@ -3,6 +3,7 @@ Channel `sq` (C15): runs the model (`SQ.genTop` + the stack machine) and the spe
 (`Subst.subst`) on one op line. Op grammar: see harness/ch_sq.go.
 -/
 import ZygoVerif.Model.SQ
+import ZygoVerif.Model.MacroCall
 import ZygoVerif.Spec.Subst
 import ZygoVerif.Driver.Proto
 namespace ZygoVerif.Driver.Sq
@@ -172,20 +173,23 @@ def handle (toks : List String) : String :=
           | none => "err"
       s!"{m}\t{s}"
     | _, _ => "bad-op\t-"
-  | "m" :: _site :: _n :: rest =>
+  | "m" :: _site :: n :: rest =>
     let (tt, av) := splitAt rest
-    match (parseT tt).bind (fun (pt, r) => if r.isEmpty then pt.toTmpl? else none), parseTable av false with
-    | some t, some tab =>
-      let H := hostOf tab
-      let m := match evalSQ H t.toSexp with
-        | some (v, 0) => s!"x {render v} eq dep=ok"
-        | some (v, d) => s!"x {render v} eq dep=left:{d}"
+    match (parseT tt).bind (fun (pt, r) => if r.isEmpty then pt.toTmpl? else none), parseTable av false, n.toNat? with
+    | some t, some tab, some np =>
+      -- model: the macro call path of Model/MacroCall (parameters z0 … bound to the argument forms)
+      let mac : Macro := { params := (List.range np).map (fun k => s!"z{k}"), body := t.toSexp }
+      let args := tab.filterMap (·.2)
+      let m := match expand mkHashD mac args with
+        | some v => s!"x {render v} eq dep=ok"
         | none => "err"
-      let s := match subst (bindingOf tab) t with
+      -- spec: substitution of the argument forms (defined only when the arity matches)
+      let s := if args.length ≠ np then "err" else
+        match subst (bindingOf tab) t with
         | some v => s!"x {render v} eq dep=ok"
         | none => "err"
       s!"{m}\t{s}"
-    | _, _ => "bad-op\t-"
+    | _, _, _ => "bad-op\t-"
   | _ => "bad-op\t-"
 
 end ZygoVerif.Driver.Sq
